@@ -75,7 +75,8 @@ def emit_with_edits(out: Out, src: str, relfile: str, lo: int, hi: int, edits: L
 
 
 class Extractor:
-    def __init__(self, repo: str, contracts_dir: str, prelude_dir: str, spec_dir: str):
+    def __init__(self, repo: str, contracts_dir: str, prelude_dir: str, spec_dir: str, vacuity: bool = False):
+        self.vacuity = vacuity
         self.repo = repo
         self.cs = ContractSet()
         self.cs.load_dir(contracts_dir)
@@ -122,6 +123,13 @@ class Extractor:
         srcs = self.sources()
         for relfile, mod in srcs:
             self.modnames.append(mod)
+        # R4b pre-scan: structs with derive(Default)
+        self.derived_default = set()
+        for relfile, mod in srcs:
+            txt = open(os.path.join(self.repo, relfile)).read()
+            for m in re.finditer(r'#\[derive\(([^)]*)\)\]\s*(?:#\[[^\]]*\]\s*)*pub(?:\([a-z]+\))?\s+struct\s+(\w+)', txt):
+                if 'Default' in [d.strip() for d in m.group(1).split(',')]:
+                    self.derived_default.add(m.group(2))
         for relfile, mod in srcs:
             self.do_file(relfile, mod)
         for mod in self.modnames:
@@ -267,6 +275,9 @@ class Extractor:
                 ds = [d.strip() for d in m.group(1).split(',') if d.strip()]
                 kept = [d for d in ds if d in KEEP_DERIVES]
                 dropped = [d for d in ds if d not in KEEP_DERIVES]
+                if it.kind == 'struct' and 'Default' in kept and it.name in getattr(self, 'derived_default', set()):
+                    kept = [d for d in kept if d != 'Default']
+                    ctx.setdefault('derive_default', set()).add(it.name)
                 if it.name in self.cs.policy.derive_spec:
                     moved = [d for d in kept if d in ('Clone', 'PartialEq')]
                     kept = [d for d in kept if d not in moved]
@@ -343,6 +354,48 @@ class Extractor:
         self.out.add(attrs, ('gen', 'attrs'))
         emit_with_edits(self.out, src, relfile, it.start, it.end, edits)
         self.out.add('\n', ('gen', 'nl'))
+        if it.name in ctx.get('derive_default', set()) and open_idx is not None and toks[open_idx].text == '{':
+            # R4b: derive(Default) -> structural specification (compiler-generated code is not repository code)
+            close_idx = match_close(toks, open_idx)
+            fields = []
+            k = open_idx + 1
+            cur = []
+            depth = 0
+            while k < close_idx:
+                t = toks[k]
+                if t.text == '#' and toks[k + 1].text == '[':
+                    k = match_close(toks, k + 1) + 1; continue
+                if t.kind == 'open':
+                    c = match_close(toks, k); cur += toks[k:c + 1]; k = c + 1; continue
+                if t.text == '<': depth += 1
+                if t.text == '>': depth -= 1
+                if t.text == '>>': depth -= 2
+                if t.text == ',' and depth == 0:
+                    fields.append(cur); cur = []
+                else:
+                    cur.append(t)
+                k += 1
+            if cur: fields.append(cur)
+            conj = []
+            for f in fields:
+                names = [x for x in f if x.text not in ('pub',)]
+                if len(names) < 3 or names[1].text != ':':
+                    continue
+                fname = names[0].text
+                ty = ''.join(x.text for x in names[2:])
+                if ty in ('u8', 'u16', 'u32', 'u64', 'i8', 'i16', 'i32', 'i64', 'usize'):
+                    conj.append('v.%s == 0' % fname)
+                elif ty == 'bool':
+                    conj.append('v.%s == false' % fname)
+                elif ty.startswith('Vec<') or ty == 'String' or ty == 'BytesMut':
+                    conj.append('v.%s@.len() == 0' % fname)
+                elif ty.startswith('Option<'):
+                    conj.append('v.%s is None' % fname)
+                elif ty in self.derived_default:
+                    conj.append('is_default_%s(v.%s)' % (ty, fname))
+            self.out.add('pub open spec fn is_default_%s(v: %s) -> bool { %s }\n' % (it.name, it.name, ' && '.join(conj) if conj else 'true'), ('gen', 'R4b'))
+            self.out.add('impl Default for %s { #[verifier::external_body] fn default() -> (r: Self) ensures is_default_%s(r) { unimplemented!() } }\n' % (it.name, it.name), ('gen', 'R4b'))
+            self.log_rule('R4b', relfile, it.line, 'derive(Default) of %s replaced by its structural specification' % it.name)
         ds = ctx.get('derive_spec', {}).get(it.name)
         if ds:
             if 'Clone' in ds:
@@ -680,6 +733,10 @@ class Extractor:
         decs = [cl for c in contracts for cl in c.decreases]
         if in_trait and reqs:
             raise ExtractError('requires on trait impl method %s' % path)
+        if self.vacuity and not external and (reqs or enss):
+            # vacuity probe: this clause must FAIL; if it proves, the contract (or body) is vacuous
+            self._vac_n = getattr(self, '_vac_n', 0) + 1
+            enss = [Clause('VACUITY.' + path, 'vacuity_probe(%d)' % self._vac_n, 'vacuity-probe')] + enss
         add_clauses('requires', reqs)
         add_clauses('ensures', enss)
         add_clauses('decreases', decs)
